@@ -1,5 +1,6 @@
 """C15 — P1 CIF files round-trip."""
 import io
+import os
 import math
 import re
 
@@ -9,7 +10,7 @@ from hypothesis import strategies as st
 from mv import hperm
 
 from mv import gen_atoms, gen_geom, geom, model_atoms as M, ref_cif
-from mv.quiet import silenced
+from mv.quiet import silenced, workdir
 from mv.runner import FuzzPart, HypPart, Violation
 
 PROPERTY = "C15"
@@ -53,6 +54,11 @@ def rt_case(draw):
         # charges of other magnitudes: very small (printed with an exponent by repr), large, many digits
         scale = draw(st.sampled_from([2.5e-7, 1.234567e-5, 1e-9, 12.5, 0.333333333333]))
         spec["charges"] = [(-1 if i % 2 else 1) * (i + 1) * scale for i in range(len(spec["pos"]))]
+    if spec["extra_atom_labels"] and draw(hperm.integers(0, 2)) == 0:
+        # extra per-atom columns whose tags merely begin like tags the reader handles itself (standard-uncertainty
+        # companions, alternative labels)
+        alt = ["_atom_site_fract_x_su", "_atom_site_cartn_y_su", "_atom_site_label_component_0"]
+        spec["extra_atom_labels"] = alt[:len(spec["extra_atom_labels"])]
     # torsion columns: one label set shared by dihedrals and impropers is what the format can carry
     spec["extra_improper_labels"], spec["extra_improper_fields"] = [], []
     if draw(hperm.integers(0, 3)) == 0 and spec["pos"]:
@@ -116,6 +122,26 @@ def rt_oracle(c, stats):
         b = load_cif(t1)
     except Exception as e:
         raise Violation("exception-in-load", "reading the written file: %s: %r" % (type(e).__name__, e))
+    # the same through the file system, always the same path (what was read from it before must not come back), by
+    # Atoms.save / Atoms.load and by load_p1_cif(path)
+    from mofun import Atoms
+    path = os.path.join(workdir(), "s.cif")
+    try:
+        with silenced():
+            a.save(path, use_fract_coords=fract)
+            tp = open(path).read()
+            bp1 = Atoms.load(path)
+            bp2 = Atoms.load_p1_cif(path)
+    except Exception as e:
+        raise Violation("exception-in-path-io", "Atoms.save(path) / Atoms.load(path) / load_p1_cif(path): %s: %r" % (type(e).__name__, e))
+    if tp != t1:
+        raise Violation("path-vs-file", "Atoms.save(path) writes other text than save_p1_cif(file object)")
+    from mv import mf
+    for how, bp in (("Atoms.load(path)", bp1), ("Atoms.load_p1_cif(path)", bp2)):
+        if mf.snapshot(bp) != mf.snapshot(b):
+            sb, sp_ = mf.snapshot(b), mf.snapshot(bp)
+            raise Violation("path-vs-file", "%s of the file just written differs from reading the same text from a file object (%s)" %
+                            (how, ", ".join(k for k in sb if sb[k] != sp_.get(k))))
     n = len(spec["pos"])
     els = [spec["type_elements"][t] for t in spec["atom_types"]]
     if list(b.elements) != els:
